@@ -97,6 +97,15 @@ func randMsg(r *rand.Rand, id string) []byte {
 		}
 		fs = append(fs, fixref.F(tags[r.Intn(len(tags))], v))
 	}
+	if r.Intn(12) == 0 {
+		// one very long field (longer than any reader buffer: 4 KiB, 64 KiB)
+		n := []int{4000, 4090, 4096, 4097, 5000, 20000, 70000}[r.Intn(7)]
+		b := make([]byte, n)
+		for k := range b {
+			b[k] = "abc=10 "[r.Intn(7)]
+		}
+		fs = append(fs, fixref.F("58", string(b)))
+	}
 	return fixref.Encode(fixref.Std, "FIX.4.4", types[r.Intn(len(types))], fs)
 }
 
@@ -194,11 +203,17 @@ func compare(c *vk.Ctx, what string, sent, got [][]byte, replay map[string]inter
 	}
 }
 
-func waitFor(cond func() bool, d time.Duration) bool {
+func waitFor(cond func() bool, d time.Duration, conns ...*wire.Conn) bool {
 	deadline := time.Now().Add(d)
 	for !cond() {
 		if time.Now().After(deadline) {
 			return false
+		}
+		// the library closed the connection: nothing more will be delivered (give it a moment to drain)
+		for _, cn := range conns {
+			if closed, at := cn.Closed(); closed && time.Since(at) > 300*time.Millisecond {
+				return cond()
+			}
 		}
 		time.Sleep(2 * time.Millisecond)
 	}
@@ -207,7 +222,7 @@ func waitFor(cond func() bool, d time.Duration) bool {
 
 func main() {
 	c := vk.Init("C04")
-	c.Rule("scenario i: 1..200 well-formed messages (any MsgType, 30..5000 bytes, values containing '10=', fields 110/210/1010/9910) are concatenated and cut into read chunks by one of 13 strategies (all-in-one, one byte per read, random, message-aligned, coalescing, and a boundary at every offset 0..7 of every message's trailing CheckSum field), with feed timing {none, Gosched, 1 ms pauses}; delivered to (a) an Initiator with a recording handler that asserts one ServeIncoming at a time, (b) an Initiator with DefaultHandler + incoming callbacks, (c) an Acceptor with 1..8 simultaneous connections through the real handler factory, each message tagged (connection, counter); buffer sizes {0,1,10}. Outbound: 1..4 goroutines hand unique messages to Send/SendRaw; the peer-side capture is split by the reference splitter. Oracle: per connection delivered == sent (bytes, order, multiplicity), nothing from another connection, outbound stream == hand-off order (order seen by an outgoing ALL-handler under the handler's own lock; per-goroutine order for SendRaw). distinct = hash(partition signature, messages); non-trivial = >=2 messages or a boundary inside a CheckSum field")
+	c.Rule("scenario i: 1..200 well-formed messages (any MsgType, 30..70000 bytes incl. single fields of 4000..70000 bytes, values containing '10=', fields 110/210/1010/9910) are concatenated and cut into read chunks by one of 13 strategies (all-in-one, one byte per read, random, message-aligned, coalescing, and a boundary at every offset 0..7 of every message's trailing CheckSum field), with feed timing {none, Gosched, 1 ms pauses}; delivered to (a) an Initiator with a recording handler that asserts one ServeIncoming at a time, (b) an Initiator with DefaultHandler + incoming callbacks, (c) an Acceptor with 1..8 simultaneous connections through the real handler factory, each message tagged (connection, counter); buffer sizes {0,1,10}. Outbound: 1..4 goroutines hand unique messages to Send/SendRaw; the peer-side capture is split by the reference splitter. Oracle: per connection delivered == sent (bytes, order, multiplicity), nothing from another connection, outbound stream == hand-off order (order seen by an outgoing ALL-handler under the handler's own lock; per-goroutine order for SendRaw). distinct = hash(partition signature, messages); non-trivial = >=2 messages or a boundary inside a CheckSum field")
 	n := c.Pick(3000, 60000)
 	vk.Parallel(n, runtime.NumCPU(), func(i int) {
 		r := c.Rand("c04", int64(i))
@@ -250,7 +265,7 @@ func main() {
 				c.SetAdd("chunk_size_classes", sizeClass(len(ch)))
 			}
 			feed(r, conn, chunks, delay)
-			if !waitFor(func() bool { return h.count() >= nmsg }, 10*time.Second) {
+			if !waitFor(func() bool { return h.count() >= nmsg }, 10*time.Second, conn) {
 				// fall through: compare reports the loss
 			}
 			time.Sleep(2 * time.Millisecond)
@@ -320,9 +335,9 @@ func main() {
 				}(g)
 			}
 			feed(r, conn, chunks, delay)
-			waitFor(func() bool { mu.Lock(); defer mu.Unlock(); return len(got) >= nmsg }, 10*time.Second)
+			waitFor(func() bool { mu.Lock(); defer mu.Unlock(); return len(got) >= nmsg }, 10*time.Second, conn)
 			wg.Wait()
-			waitFor(func() bool { return len(conn.Written()) >= totalLen(outSent) }, 5*time.Second)
+			waitFor(func() bool { return len(conn.Written()) >= totalLen(outSent) }, 5*time.Second, conn)
 			time.Sleep(2 * time.Millisecond)
 			mu.Lock()
 			g2 := append([][]byte(nil), got...)
@@ -436,7 +451,7 @@ func main() {
 					}
 				}
 				return true
-			}, 10*time.Second)
+			}, 10*time.Second, conns...)
 			time.Sleep(2 * time.Millisecond)
 			for k, rc := range recs {
 				rc.mu.Lock()
